@@ -21,15 +21,19 @@ from z3 import And, BoolVal, Not, Solver, unsat, sat
 
 from vlib.vc import symex
 from vlib.vc.symex import *  # noqa
+from vlib.vc.symex import FieldV  # noqa
 from vlib.vc.model import *  # noqa
 from vlib.vc import model as M
 
 ROOT = os.path.dirname(os.path.dirname(os.path.dirname(os.path.abspath(__file__))))
 REPO = os.environ.get('VERIF_REPO', '/repo')
 NPROC = int(os.environ.get('VERIF_NPROC', '16'))
-TIMEOUT_MS = int(os.environ.get('VERIF_SMT_TIMEOUT_MS', '20000'))
+TIMEOUT_MS = int(os.environ.get('VERIF_SMT_TIMEOUT_MS', '15000'))
+FALLBACK_MS = int(os.environ.get('VERIF_SMT_FALLBACK_MS', '6000'))
 
 _ASTS = {}
+ABDD = {}
+HANDLES = []
 # RuntimeError('full: reached max_nodes') can leave find_or_add half way; max_nodes defaults to sys.maxsize and the
 # claims assume it is never reached. Paths on which a *callee* raised it are not analysed.
 AUTO_ASSUMED = {'RuntimeError'}
@@ -134,6 +138,27 @@ def make_arg(name, kind):
         return NONE() if kind == 'exc:None' else ExcClassV(kind[4:])
     if kind.startswith('obj:'):
         return ObjV(kind[4:], {})
+    if kind == 'abdd':
+        o = ObjV('dd.autoref.BDD', {'_bdd': MgrV('m', 'dd.bdd.BDD'), 'vars': FieldV('m', 'vars')}, ident=z3.Int('self_id'))
+        ABDD['self'] = o
+        return o
+    if kind == 'fself':
+        owner = ABDD.get('self')
+        if owner is None:
+            owner = ABDD['self'] = ObjV('dd.autoref.BDD', {'_bdd': MgrV('m', 'dd.bdd.BDD'), 'vars': FieldV('m', 'vars')}, ident=z3.Int('self_id'))
+        return ObjV('dd.autoref.Function', {'node': IntV(z3.Int(name + '_node')), 'bdd': owner, 'manager': MgrV('m', 'dd.bdd.BDD')})
+    if kind in ('handle', 'opthandle', 'fobj'):
+        owner = ABDD.get('self')
+        if owner is None:
+            owner = ABDD['self'] = ObjV('dd.autoref.BDD', {'_bdd': MgrV('m', 'dd.bdd.BDD'), 'vars': FieldV('m', 'vars')}, ident=z3.Int('self_id'))
+        # a handle of possibly another manager: same attribute table, symbolic identity
+        hb = ObjV('dd.autoref.BDD', owner.attrs, ident=z3.Int(name + '_bdd_id'))
+        h = ObjV('dd.autoref.Function', {'node': IntV(z3.Int(name + '_node'), z3.Bool(name + '_released') if kind == 'fobj' else None),
+                                         'bdd': hb, 'manager': MgrV('m', 'dd.bdd.BDD')})
+        if kind == 'opthandle':
+            h.none = z3.Bool(name + '_is_none')
+        HANDLES.append(h)
+        return h
     if kind == 'rcobj':
         # a _ReorderingContext instance after __init__/__enter__: fields bdd (manager) and nested (symbolic flag)
         return ObjV('dd.bdd._ReorderingContext', {'bdd': MgrV('bdd'), 'nested': BoolV(z3.Bool('nested0'))})
@@ -161,6 +186,30 @@ def ret_z(c, v, ex, p):
         if not isinstance(v, NameV):
             raise Unsupported('return kind')
         return v.z
+    if c.ret == 'handle':
+        if not (isinstance(v, ObjV) and v.cls == 'dd.autoref.Function'):
+            raise Unsupported('return kind (handle expected)')
+        return v.attrs['node'].z
+    if c.ret == 'optname':
+        if isinstance(v, NameV):
+            return (v.z, is_none(v))
+        if isinstance(v, IntV):
+            return (z3.Const('noname', M.Name), is_none(v))
+        raise Unsupported('return kind (optional name expected)')
+    if c.ret == 'fork-of-handles':
+        if not (isinstance(v, TupV) and len(v.items) == 3):
+            raise Unsupported('return kind')
+        def hz(x):
+            if isinstance(x, IntV):
+                return (z3.IntVal(0), is_none(x))
+            return (x.attrs['node'].z, getattr(x, 'none', BoolVal(False)))
+        return (zint(v.items[0], ex, p), hz(v.items[1]), hz(v.items[2]))
+    if c.ret == 'opthandle':
+        if isinstance(v, IntV):
+            return (z3.IntVal(0), is_none(v))
+        if isinstance(v, ObjV) and v.cls == 'dd.autoref.Function':
+            return (v.attrs['node'].z, getattr(v, 'none', BoolVal(False)))
+        raise Unsupported('return kind (optional handle expected)')
     if c.ret.startswith(('dict:', 'set:', 'list:')):
         if not isinstance(v, (DictV, SetV, ListV)):
             raise Unsupported('return kind')
@@ -178,6 +227,8 @@ def generate(target, registry):
               consts=target.get('consts'))
     ex.finder = find_function
     env, mgrs = {}, {}
+    ABDD.clear()
+    del HANDLES[:]
     params = [a.arg for a in fn.args.args] + [a.arg for a in fn.args.kwonlyargs]
     cparams = dict(c.params)
     override = target.get('args', {})
@@ -216,7 +267,10 @@ def generate(target, registry):
     p0 = Path(mgrs, env, [])
     ex.entry_mgrs = entry_mgrs
     zargs = ex.z_args(c, {n: env[n] for n, _ in c.params if n in env}, p0)
-    mkey = env[c.mgr].key if c.mgr in env and isinstance(env[c.mgr], MgrV) else (c.mgr if c.mgr in mgrs else None)
+    if callable(c.mgr):
+        mkey = c.mgr(env)
+    else:
+        mkey = env[c.mgr].key if c.mgr in env and isinstance(env[c.mgr], MgrV) else (c.mgr if c.mgr in mgrs else None)
     S0 = entry_mgrs[mkey] if mkey else None
     ctx0 = Ctx(S=S0, S0=S0, a=Ctx(**zargs), mgrs=entry_mgrs, uses=c.uses, ex=ex, path=p0)
     pre = c.pre(ctx0)
@@ -234,7 +288,7 @@ def generate(target, registry):
         muts = {nm: (entry_env[nm], p.env.get(nm, entry_env[nm])) for nm in c.mutates}
         if p.status == 'return' and p.exc is None or p.status == 'return':
             rz = ret_z(c, p.value, ex, p)
-            pctx = Ctx(S=S1, S0=S0, S1=S1, a=ctx0.a, r=rz, mgrs0=entry_mgrs, mgrs=p.mgrs, uses=c.uses, muts=muts, ex=ex, path=p)
+            pctx = Ctx(S=S1, S0=S0, S1=S1, a=ctx0.a, r=rz, mgrs0=entry_mgrs, mgrs=p.mgrs, uses=c.uses, muts=muts, ex=ex, path=p, own=True)
             for nm, g in c.post(pctx):
                 ex.oblige(p, f'post:{nm}', g)
             for exc, rs in c.raises.items():
@@ -285,11 +339,12 @@ def _solve(job, fallbacks=True):
         back = 'z3-api'
         if res != 'unsat' and fallbacks:
             # fall-backs: cvc5 and the z3 CLI (different version) on the same SMT-LIB text
-            for tool, cmd in (('cvc5', ['/usr/bin/cvc5', '--lang=smt2', f'--tlimit={timeout}', '--full-saturate-quant']),
-                              ('z3-4.8-cli', ['/usr/bin/z3', '-smt2', f'-T:{max(1, timeout // 1000)}', '-in'])):
+            fb = min(timeout, FALLBACK_MS)
+            for tool, cmd in (('cvc5', ['/usr/bin/cvc5', '--lang=smt2', f'--tlimit={fb}', '--full-saturate-quant']),
+                              ('z3-4.8-cli', ['/usr/bin/z3', '-smt2', f'-T:{max(1, fb // 1000)}', '-in'])):
                 try:
                     pr = subprocess.run(cmd + ([] if tool != 'cvc5' else ['-']), input=smt2, capture_output=True, text=True,
-                                        timeout=timeout / 1000 + 5)
+                                        timeout=fb / 1000 + 5)
                     out = pr.stdout.strip().splitlines()
                     if out and out[0].strip() == 'unsat':
                         res, back = 'unsat', tool
